@@ -244,7 +244,15 @@ def mk_value(pname, desc):
 
 
 def mk_kwargs(props):
-    return {k: mk_value(k, v) for k, v in (props or {}).items()}
+    """keyword properties in the order given; a key 'raw:<name>' passes its value to the API as it is
+    (used for invalid values the API itself must reject)"""
+    out = {}
+    for k, v in (props or {}).items():
+        if k.startswith("raw:"):
+            out[k[4:]] = v
+        else:
+            out[k] = mk_value(k, v)
+    return out
 
 
 # ---------------------------------------------------------------------------------------------- interpreter
@@ -386,6 +394,18 @@ class Interp:
                             if b != a and not s.owner_of_service(b):
                                 out.append((a, b))
         return sorted(set(out))
+
+    def ghost_interface(self):
+        """a valid Interface handle that belongs to ANOTHER topology (another graph in the same store)"""
+        if getattr(self, "_ghost", None) is None:
+            from fim.user.topology import ExperimentTopology
+            from fim.slivers.component_catalog import ComponentModelType
+            other = ExperimentTopology(importer=self.topo.graph_model.importer)
+            n = other.add_node(name="ghostnode", site="RENC")
+            n.add_component(name="ghostnic", model_type=ComponentModelType.SmartNIC_ConnectX_6)
+            self._ghost_topo = other
+            self._ghost = n.interface_list[0]
+        return self._ghost
 
     def _excl(self, name):
         self.excluded[name] = self.excluded.get(name, 0) + 1
@@ -539,12 +559,8 @@ class Interp:
         nstype = ServiceType[op["nstype"]] if op.get("nstype") else None
         handles = [self.handle(i, s, h) for i, h in ifs]
         if op.get("foreign_if"):
-            # an interface object that belongs to another topology (C09 fault)
-            other = Interp.__new__(Interp)
-            from fim.user.topology import ExperimentTopology
-            from fim.user.interface import Interface
-            handles.insert(min(op["foreign_if"] - 1, len(handles)),
-                           Interface(name="ghost", node_id="ghost-id", topo=self.topo))
+            # an interface object for an element that is not in this model (C09 fault), at position k
+            handles.insert(min(op["foreign_if"] - 1, len(handles)), self.ghost_interface())
         self.remember(self.topo.add_network_service(name=name, node_id=nid, nstype=nstype,
                                                     interfaces=handles if (handles or op.get("ifs") is not None)
                                                     else None, **kw))
@@ -602,8 +618,7 @@ class Interp:
         info.update(name=name, node_id=nid, ifs=refs)
         handles = [self.handle(i, s, 1) for i in refs]
         if op.get("ghost_at") is not None:
-            from fim.user.interface import Interface
-            handles.insert(min(op["ghost_at"], len(handles)), Interface(name="ghost", node_id="ghost-id", topo=self.topo))
+            handles.insert(min(op["ghost_at"], len(handles)), self.ghost_interface())
         l = self.topo.add_link(name=name, node_id=nid, ltype=LinkType[op.get("ltype", "Patch")] if op.get("ltype", "Patch")
                                else None, interfaces=handles, **mk_kwargs(op.get("props")))
         self.made_links.add(l.node_id)
